@@ -1125,4 +1125,64 @@ impl<'i> NsReader<&'i [u8]> {
     }
 //@end
 }
+// ---- `xsi:nil` (src/events/attributes.rs, Attributes::has_nil; used by the serde deserializer for every Start tag it looks at) ----
+/// verified shim for `Iterator::any` over the attribute iterator (N2): C03 / C07 -- it TERMINATES (every item moves the iterator
+/// on: `ahead()` decreases) and needs nothing of the tag but the iterator's invariant: malformed and duplicated attributes included
+pub fn any_attr<'a, F: Fn(core::result::Result<Attribute<'a>, AttrError>) -> bool>(it: &mut Attributes<'a>, f: F) -> (r: bool)
+    requires old(it).inv(), forall|x: core::result::Result<Attribute<'a>, AttrError>| f.requires((x,)),
+    ensures final(it).inv(), final(it).bytes == old(it).bytes,
+{
+    loop
+        invariant it.inv(), it.bytes == old(it).bytes, forall|x: core::result::Result<Attribute<'a>, AttrError>| f.requires((x,)),
+        decreases it.ahead()
+    {
+        match it.next() {
+            None => { return false; }
+            Some(x) => { if f(x) { return true; } }
+        }
+    }
+}
+/// std: `AsRef<[u8]> for Cow<[u8]>` hands out the bytes it holds
+pub assume_specification<'a, 'b, T: ?Sized + ToOwned> [<Cow<'a, T> as core::convert::AsRef<T>>::as_ref] (c: &'b Cow<'a, T>) -> (r: &'b T)
+    ensures r == cow_target(c);
+pub axiom fn axiom_cow_mut_bytes_ns()
+    ensures forall|c: &Cow<'_, [u8]>| (#[trigger] cow_target(c))@ == c@;
+impl<'a> Attribute<'a> {
+//@extract attributes::Attribute::as_bool | src/events/attributes.rs :: impl<'a> Attribute<'a> :: fn as_bool | serves=C05,C07 n13=1
+ pub fn as_bool(&self) -> (r: Option<bool>)
+        // XML Schema boolean: "1" / "true", "0" / "false", nothing else
+        ensures r == (if self.value@ =~= seq![0x31u8] || self.value@ =~= seq![0x74u8, 0x72, 0x75, 0x65] { Some(true) }
+            else if self.value@ =~= seq![0x30u8] || self.value@ =~= seq![0x66u8, 0x61, 0x6c, 0x73, 0x65] { Some(false) } else { None }),
+ {
+        proof { axiom_cow_mut_bytes_ns(); axiom_seq_eq_u8(); }
+        { let __m13_1 = self.value.as_ref() ; proof { assert(__m13_1@ == self.value@); assert([0x31u8]@ =~= seq![0x31u8]); assert([0x74u8, 0x72, 0x75, 0x65]@ =~= seq![0x74u8, 0x72, 0x75, 0x65]); assert([0x30u8]@ =~= seq![0x30u8]); assert([0x66u8, 0x61, 0x6c, 0x73, 0x65]@ =~= seq![0x66u8, 0x61, 0x6c, 0x73, 0x65]); } if bytes_eq(__m13_1, &[b'1']) || bytes_eq(__m13_1, &[b't', b'r', b'u', b'e']) { Some(true) } else if bytes_eq(__m13_1, &[b'0']) || bytes_eq(__m13_1, &[b'f', b'a', b'l', b's', b'e']) { Some(false) } else { None } }
+    }
+//@end
+}
+impl<'a> Attributes<'a> {
+//@extract attributes::Attributes::has_nil | src/events/attributes.rs :: impl<'a> Attributes<'a> :: fn has_nil | serves=C05,C07 n13=1
+//@rewrite use crate::name::ResolveResult::*; ==> 
+//@rewrite self.any(|attr| { ==> any_attr(self, |attr: core::result::Result<Attribute<'a>, AttrError>| {
+//@rewrite Bound(Namespace( ==> ResolveResult::Bound(Namespace(
+ fn has_nil<R>(&mut self, reader: &NsReader<R>) -> (r: bool)
+        // C03 / C07: looking for `xsi:nil` terminates and never panics, whatever the tag contains (errors of the iterator are skipped)
+        requires old(self).inv(), reader.ns_resolver.wf(),
+        ensures final(self).inv(), final(self).bytes == old(self).bytes,
+ {
+        any_attr(self, |attr: core::result::Result<Attribute<'a>, AttrError>| {
+            if let Ok(attr) = attr {
+                match reader.resolve_attribute(attr.key) {
+                    (
+                        ResolveResult::Bound(Namespace(__b13_1)),
+                        LocalName(__b13_2),
+                    ) if bytes_eq(__b13_1, &[b'h', b't', b't', b'p', b':', b'/', b'/', b'w', b'w', b'w', b'.', b'w', b'3', b'.', b'o', b'r', b'g', b'/', b'2', b'0', b'0', b'1', b'/', b'X', b'M', b'L', b'S', b'c', b'h', b'e', b'm', b'a', b'-', b'i', b'n', b's', b't', b'a', b'n', b'c', b'e']) && bytes_eq(__b13_2, &[b'n', b'i', b'l']) => attr.as_bool().unwrap_or_default() ,
+                    _ => false ,
+                }
+            } else {
+                false
+            }
+        })
+    }
+//@end
+}
 }
